@@ -272,7 +272,9 @@ func (wf *WALFileType) readTGData() (tgID int64, tgSerialized []byte, err error)
 	}
 	tgLen := io.ToInt64(tgLenSerialized)
 
-	if !sanityCheckValue(wf.FilePtr, tgLen) {
+	// a TG holds at least its ID and the WT count (8 bytes each); a smaller or negative length
+	// is garbage and must not reach the allocation and the slicing below
+	if tgLen < tgIDBytes+8 || !sanityCheckValue(wf.FilePtr, tgLen) {
 		return 0, nil, errors.New(io.GetCallerFileContext(0) + fmt.Sprintf(": Insane TG Length: %d", tgLen))
 	}
 
